@@ -153,7 +153,42 @@ func build(race bool) string {
 		fatal(2, "HARNESS ERROR: instrumentation failed / worker does not build against the current /repo tree:\n%s", s)
 	}
 	os.Rename(tmp, bin)
+	gcWork(work, res.Dir)
 	return bin
+}
+
+// gcWork keeps the work directory small: only the 3 most recently used overlay
+// directories (each holds two ~40 MB worker binaries) survive.
+func gcWork(work, keep string) {
+	now := time.Now()
+	os.Chtimes(keep, now, now)
+	ents, err := os.ReadDir(work)
+	if err != nil {
+		return
+	}
+	type d struct {
+		path string
+		mod  time.Time
+	}
+	var ds []d
+	for _, e := range ents {
+		if !e.IsDir() || !(strings.HasPrefix(e.Name(), "ov-") || strings.HasPrefix(e.Name(), "tmp-ov-")) {
+			continue
+		}
+		p := filepath.Join(work, e.Name())
+		if p == keep {
+			continue
+		}
+		if fi, err := os.Stat(p); err == nil {
+			ds = append(ds, d{p, fi.ModTime()})
+		}
+	}
+	sort.Slice(ds, func(i, j int) bool { return ds[i].mod.After(ds[j].mod) })
+	for i, x := range ds {
+		if i >= 2 && now.Sub(x.mod) > 90*time.Minute {
+			os.RemoveAll(x.path)
+		}
+	}
 }
 
 type knownFinding struct {
